@@ -5,16 +5,17 @@ out = sys.argv[1]
 args = sys.argv[2:]
 d = tempfile.mkdtemp(prefix="mkp-")
 try:
-    diffs = []
+    cur = {}
     for i in range(0, len(args), 3):
         f, old, new = args[i:i+3]
-        src = open(os.path.join("/repo", f)).read()
+        src = cur.get(f) or open(os.path.join("/repo", f)).read()
         if src.count(old) < 1:
             sys.exit(f"pattern not found in {f}: {old[:60]!r}")
-        dst = src.replace(old, new, 1)
+        cur[f] = src.replace(old, new, 1)
+    for f, dst in cur.items():
         a = os.path.join(d, "a", f); b = os.path.join(d, "b", f)
         os.makedirs(os.path.dirname(a), exist_ok=True); os.makedirs(os.path.dirname(b), exist_ok=True)
-        open(a, "w").write(src); open(b, "w").write(dst)
+        open(a, "w").write(open(os.path.join("/repo", f)).read()); open(b, "w").write(dst)
     r = subprocess.run(["diff", "-ruN", "a", "b"], cwd=d, capture_output=True, text=True)
     open(out, "w").write(r.stdout)
 finally:
